@@ -146,7 +146,7 @@ Definition parse_portion_gen (octal : bool) (s : string) : option Q :=
   end.
 
 (* the code as it is (machine.ParsePortionSpecific) and the decimal reading *)
-Definition parse_portion : string -> option Q := parse_portion_gen true.
+Definition parse_portion : string -> option Q := parse_portion_gen false.   (* decimal reading: the octal reading of leading-zero terms was repaired by a fix: commit *)
 Definition parse_portion_dec : string -> option Q := parse_portion_gen false.
 
 Example parse_portion_zero_den : parse_portion "1/0" = None /\ parse_portion "0/0" = None /\ parse_portion "7 / 00" = None.
@@ -154,5 +154,6 @@ Proof. repeat split; reflexivity. Qed.
 Example parse_portion_forms :
   parse_portion "1/2" = Some (1 # 2) /\ parse_portion "1 / 2" = Some (1 # 2) /\ parse_portion "1  /2" = None /\
   parse_portion "12.5%" = Some (125 # 1000) /\ parse_portion "100%" = Some (100 # 100) /\ parse_portion ".5%" = None /\
-  parse_portion "05/010" = Some (5 # 8) /\ parse_portion_dec "05/010" = Some (5 # 10) /\ parse_portion "08/9" = None.
+  parse_portion "05/010" = Some (5 # 10) /\ parse_portion_gen true "05/010" = Some (5 # 8) /\ parse_portion "08/9" = Some (8 # 9) /\
+  parse_portion_gen true "08/9" = None.
 Proof. repeat split; reflexivity. Qed.
